@@ -118,7 +118,9 @@ End ==
 TNext == PhaseStep \/ MeshWritten \/ End
 TSpec == TInit /\ [][TNext]_tvars
 
-\* one invariant per tag, so that TLC names what failed
+\* one invariant per tag, so that TLC names what failed.  TLC reports only the FIRST violated invariant of a state, so every
+\* non-empty tag set is also printed in full by ReportAll (always TRUE), which is what the harness reads.
+ReportAll == tags = {} \/ PrintT(<<"TAGS", l, tags>>)
 NoTag(t) == t \notin tags
 I_C08_LidIsIndex == NoTag("C08_LidIsIndex")
 I_C08_IdsUnique == NoTag("C08_IdsUnique")
